@@ -80,6 +80,10 @@ type ChanV struct {
 	et     types.Type
 	recvq  []*waiter
 	sendw  []*waiter
+	// race.go: clocks of the buffered messages, of the receives so far, of the close
+	bufVC   []vclock
+	recvVC  vclock
+	closeVC vclock
 }
 
 // Cell is a unit of addressable storage.
